@@ -538,6 +538,11 @@ func runC11Service(r *simkit.Run) {
 				w.plan(k).StartReports = append(w.plan(k).StartReports, []st{sOK, sRec, sPerm, sStart, sStopd}[tp.Draw(5)])
 			}
 		}
+		if !strings.HasSuffix(k, ":*") && tp.Chance(1, 4) {
+			// the component reports from inside its Shutdown, i.e. after the service has reported Stopping for it
+			w.plan(k).ShutdownReports = [][]st{{sPerm}, {sRec}, {sPerm, sPerm}}[tp.Draw(3)]
+			r.Count("fault.status_report_from_shutdown")
+		}
 	}
 	// Concurrent component report placed inside the status delivery path: at the k-th event delivered for an instance
 	// of a receiver shared across signals (which includes the replay to a late-attached instance) a goroutine of the
@@ -700,6 +705,30 @@ func runC11Service(r *simkit.Run) {
 	for _, k := range order {
 		checkPath(r, k, per[k])
 		r.Logf("  %s: %v", k, per[k])
+	}
+	// a PermanentError reported from inside Shutdown follows the service's Stopping (Stopping -> PermanentError is an
+	// edge of the diagram): it is delivered, whatever the component had reported before
+	w.mu.Lock()
+	shutRep := w.shutdownReported
+	w.mu.Unlock()
+	perAfter := map[string][]st{}
+	for li, line := range w.StatusLog() {
+		if li >= beforeShutdown {
+			parts := strings.SplitN(line, "|", 3)
+			perAfter[parts[0]] = append(perAfter[parts[0]], statusByName(parts[1]))
+		}
+	}
+	for _, k := range order {
+		reps := shutRep[k]
+		if len(reps) == 0 || reps[0] != sPerm {
+			continue
+		}
+		if lb, ok := lastBefore[k]; !ok || lb == sFatal || lb == sStopd {
+			continue // nothing follows FatalError or Stopped
+		}
+		if !containsSt(perAfter[k], sPerm) {
+			r.Failf("delivery", "legal-report-not-delivered/from-shutdown", "%s was in %s when the service began to shut down and reported PermanentError from inside its Shutdown (after the service's Stopping: an edge of the diagram): during the shutdown the watcher saw %v for it", k, lastBefore[k], perAfter[k])
+		}
 	}
 	// a shared receiver delivers the same status sequence to every instance it represents
 	shared := map[string][]string{}
